@@ -14,13 +14,13 @@ TRUSTED_BASE = [
 PROPS = {
     'C16': {
         'harness': 'c16',
-        'rule': 'all 2^9 subsets of the nine modifiers on an exception rule (shuffled order), through NewMatchingResult and through Engine.MatchRequest, plus the same subsets on blocking rules, extra general modifiers, and the absent-rule case; non-trivial = the rule was accepted and is an exception (or absent); distinct = distinct case lines',
+        'rule': 'all 2^9 subsets of the nine modifiers on an exception rule (shuffled order), through NewMatchingResult and through Engine.MatchRequest, plus the same subsets on blocking rules, extra general modifiers, and the absent-rule case ; modes through engines (with cosmetic rules of every kind, with a referrer under document-level exceptions), next to a cancelled (rule, $badfilter twin) pair at every position, with an $important,domain= block and two page exceptions in every order (srcpair), and pairs of exceptions with different cosmetic modifiers and modifier counts, one of them with an excluded-values-only list (pair, through the model as well); non-trivial = the rule was accepted and is an exception (or absent); distinct = distinct case lines',
         'correspondence': 'GetCosmeticOption of the implementation vs get_cosmetic_option of the model on the parsed option word',
         'assumptions': ['option word of the rule is read through the verif hook VerifFields'],
     },
     'C10': {
         'harness': 'c10',
-        'rule': 'values generated around every keyword, record type, field count and numeric bound (65535/65536, signs, leading zeros, empty fields), IPv4/IPv6 syntax corner cases, host-name corner cases, wrong delimiter counts, plus byte mutations of valid values; each parsed through NewNetworkRule("||h^$dnsrewrite="+v); non-trivial = the value was accepted with a rewrite (or the parser panicked); distinct = distinct values',
+        'rule': 'values generated around every keyword, record type, field count and numeric bound (65535/65536, signs, leading zeros, empty fields), IPv4/IPv6 syntax corner cases, host-name corner cases, wrong delimiter counts, plus byte mutations of valid values; each parsed through NewNetworkRule("||h^$dnsrewrite="+v) ; alias forms of SVCB/HTTPS (priority zero in every spelling x the root and other targets); non-trivial = the value was accepted with a rewrite (or the parser panicked); distinct = distinct values',
         'correspondence': 'canonical rendering (NewCNAME, RCode, RRType, dynamic type tag and fields of Value) of the implementation result vs the model result; the harness also evaluates the published shape predicate on the implementation result and parses twice (determinism)',
         'assumptions': ['values with bytes >= 0x80 or IPv6 zones are outside the modelled fragment (counted as unsupported; only the Go-side shape predicate applies to them)'],
     },
@@ -38,14 +38,14 @@ PROPS = {
     },
     'C09': {
         'harness': 'c09',
-        'rule': 'ALL sequences of length 0..4 (quick; 0..5 thorough) over an alphabet of 12 rewrite shapes (A/A-important/second A/CNAME/NXDOMAIN/MX rewrites; A, important-A, CNAME, MX, empty and important-empty exceptions), plus sampled sequences of length 0..8 over a 70-shape alphabet (A, AAAA, CNAME, RCODE, TXT, MX, SRV, HTTPS, PTR, NS, bare NOERROR x important x exception, empty exceptions, $badfilter and non-rewrite rules), one in six through DNSEngine.MatchRequest; non-trivial = at least one rewrite exception and at least two rules; distinct = distinct sequences',
+        'rule': 'ALL sequences of length 0..4 (quick; 0..5 thorough) over an alphabet of 12 rewrite shapes (A/A-important/second A/CNAME/NXDOMAIN/MX rewrites; A, important-A, CNAME, MX, empty and important-empty exceptions), plus sampled sequences of length 0..8 over a 70-shape alphabet (A, AAAA, CNAME, RCODE, TXT, MX, SRV, HTTPS, PTR, NS, bare NOERROR x important x exception, empty exceptions, $badfilter and non-rewrite rules), one in six through DNSEngine.MatchRequest ; one sequence in 25 has 12-64 rules; non-trivial = at least one rewrite exception and at least two rules; distinct = distinct sequences',
         'correspondence': 'sequence of rule texts returned by DNSRewrites() vs dns_rewrites of the model on rules parsed from the same texts (for engine cases in the order the engine reported them)',
         'exhaustive_part': 'sequences up to the stated length over the 12-shape alphabet',
         'assumptions': [],
     },
     'C06': {
         'harness': 'c06',
-        'rule': 'multisets of 0-5 rules matching the request (exception, important, $domain-specific, content type, third-party, $dnsrewrite, $stealth, document-level modifiers, $badfilter) and 0-3 rules matching the referrer (urlblock, genericblock, document, elemhide, important/domain-specific variants, plain exception/block, stealth, $badfilter), plus a targeted family where the referrer is matched by every pair of document-level exceptions; through NewMatchingResult+GetBasicResult, GetDNSBasicRule, and (one case in eight) through Engine.MatchRequest, NetworkEngine.Match and DNSEngine.MatchRequest with the rules split over two lists; the harness additionally re-evaluates every web/dns case under all permutations (up to 130 x 30) and every engine case under swapped and merged lists and flags a class change; non-trivial = at least two rules',
+        'rule': 'multisets of 0-5 rules matching the request (exception, important, $domain-specific, content type, third-party, $dnsrewrite, $stealth, document-level modifiers, $badfilter) and 0-3 rules matching the referrer (urlblock, genericblock, document, elemhide, important/domain-specific variants, plain exception/block, stealth, $badfilter), plus a targeted family where the referrer is matched by every pair of document-level exceptions; through NewMatchingResult+GetBasicResult, GetDNSBasicRule, and (one case in eight) through Engine.MatchRequest, NetworkEngine.Match and DNSEngine.MatchRequest with the rules split over two lists; the harness additionally re-evaluates every web/dns case under all permutations (up to 130 x 30) and every engine case under swapped and merged lists and flags a class change ; half of the engine cases write the rules with patterns of other shapes (scheme prefix, bare / short literals, regular expressions) so that they are filed in different lookup tables; non-trivial = at least two rules',
         'correspondence': 'verdict class and text of the selected rule, implementation vs model (for engine cases the matched rules in engine order are oracle inputs of the model)',
         'assumptions': ['$replace, $cookie, $csp and $redirect cannot be produced by the text parser (they are rejected as unknown modifiers), so those branches are covered by the theorems only'],
     },
@@ -63,7 +63,7 @@ PROPS = {
     },
     'C18': {
         'harness': 'c18',
-        'rule': 'lines IP (sp|tab)+ name ((sp|tab)+ name)* with IPv4, IPv6 and IPv4-mapped addresses, 1-8 names, optional trailing blanks, comments with or without preceding blank or tab (incl. double # after a blank and comments containing names and addresses), leading blanks; bare-domain lines; one sixth byte-mutated (outside the grammar, model comparison only); each with probe names (listed names, unlisted names, a listed name minus its last byte / plus one byte); through NewRule, HostRule.Match and DNSEngine.Match; non-trivial = the line produced a host rule',
+        'rule': 'lines IP (sp|tab)+ name ((sp|tab)+ name)* with IPv4, IPv6 and IPv4-mapped addresses, 1-8 names, optional trailing blanks, comments with or without preceding blank or tab (incl. double # after a blank and comments containing names and addresses), leading blanks; bare-domain lines; one sixth byte-mutated (outside the grammar, model comparison only); each with probe names (listed names, unlisted names, a listed name minus its last byte / plus one byte); through NewRule, HostRule.Match and DNSEngine.Match ; multi-line cases (4-11 hosts lines sharing names, later lines repeating the first name of the line before): the answer for every name against the lines that list it, then 2-16 goroutines asking one engine for different names; non-trivial = the line produced a host rule',
         'correspondence': 'kind, address, names of NewRule(line); HostRule.Match per probe; DNS engine group (v4/v6/none) per probe; for in-grammar lines the harness also compares with the names and address the generator wrote',
         'assumptions': ['IPv6 zones are outside the modelled fragment'],
     },
@@ -75,7 +75,7 @@ PROPS = {
     },
     'C03': {
         'harness': 'c03',
-        'rule': 'ALL mask patterns of 1..3 tokens (quick; 1..4 thorough) over the 14-symbol alphabet | * ^ a B . / ? ( [ \\ $ + { (every regex metacharacter, pipes in every position), plus sampled patterns of 4-9 symbols, grammar patterns (also with trailing /*, |, ^, ||) and random printable strings; with and without $match-case; each with 6-7 subject strings derived from the pattern (matching, case-swapped, deviating, separator / non-separator bytes at ^, scheme variants at ||, newline) ; non-trivial = the pattern compiled to a regular expression; distinct = distinct (pattern, flag, subjects)',
+        'rule': 'ALL mask patterns of 1..3 tokens (quick; 1..4 thorough) over the 14-symbol alphabet | * ^ a B . / ? ( [ \\ $ + { (every regex metacharacter, pipes in every position), plus sampled patterns of 4-9 symbols, grammar patterns (also with trailing /*, |, ^, ||) and random printable strings; with and without $match-case; each with 6-7 subject strings derived from the pattern (matching, case-swapped, deviating, separator / non-separator bytes at ^, scheme variants at ||, newline)  ; Go-side oracles: Match on a request agrees with the compiled expression, and one rule object answers URL and hostname requests in either order like fresh objects; non-trivial = the pattern compiled to a regular expression; distinct = distinct (pattern, flag, subjects)',
         'correspondence': 'status of preparePattern, source text of the compiled regexp (regexp.String()) vs the model text, and MatchString per subject vs the model matcher (which by C03_parse/C03_match equals the regex-free mask semantics)',
         'exhaustive_part': 'patterns up to the stated token bound over the 14-symbol alphabet',
         'assumptions': ['subjects and patterns ASCII'],
@@ -89,21 +89,21 @@ PROPS = {
     'C11': {
         'incoq_k': 8,
         'harness': 'c11',
-        'rule': 'storages of 1-4 lists with distinct ids drawn from {0, 1, 2, 7, -1, -5, 1000, 65536, 123456789, 2^31-1, -2^31}, IgnoreCosmetic on/off, contents of 0-29 lines with LF or CRLF (occasionally mixed, doubled), with or without final newline, blank and comment lines, cosmetic, hosts and network rules, invalid rules, multi-byte UTF-8 and NUL inside comments/cosmetic rules, lines of 4090-9000 bytes around the 4 KiB read buffer, leading/trailing blanks; String-backed and File-backed; scan, retrieval during the file scan, retrieval after the scan in reverse order and again in order (cache) from both backings; non-trivial = at least one rule was yielded',
+        'rule': 'storages of 1-4 lists with distinct ids drawn from {0, 1, 2, 7, -1, -5, 1000, 65536, 123456789, 2^31-1, -2^31}, IgnoreCosmetic on/off, contents of 0-29 lines with LF or CRLF (occasionally mixed, doubled), with or without final newline, blank and comment lines, cosmetic, hosts and network rules, invalid rules, multi-byte UTF-8 and NUL inside comments/cosmetic rules, lines of 4090-9000 bytes around the 4 KiB read buffer, leading/trailing blanks; String-backed and File-backed; scan, retrieval during the file scan, retrieval after the scan in reverse order and again in order (cache) from both backings; non-trivial = at least one rule was yielded ; one content in eight has 200-700 short lines (several read blocks); retrieval in scrambled orders from three fresh file-backed storages per case; interleaved scanners; a finished scanner polled while another is live',
         'correspondence': 'scan sequence (storage index, kind, text, list id) of the implementation vs storage_scan of the model; the harness flags any difference between String and File scans, any retrieval that does not return the scanned rule, and index collisions; the model side re-checks its own retrieval on every index',
         'assumptions': ['int32 list ids, offsets < 2^31 (the property domain)', 'network-rule lines with bytes >= 0x80 make the model decline the case'],
     },
     'C01': {
         'incoq_k': 8,
         'harness': 'c01',
-        'rule': 'storages of 1-3 String lists (ids incl. 0, negative and extreme int32) with 0-60 rules each: rules whose shortcut contains one of 24 pairs of djb2-colliding 5-byte windows (birthday search), shortcuts of length exactly 5 / below 5 / at the any-URL thresholds, $domain rules (incl. wildcard TLD and negated), rules without shortcut and domain (sequential table), families of rules sharing shortcut windows (histogram), exceptions, focused and grammar rules; 40 (120) requests per engine coupled to the rules, with colliding windows and windows at the very end of the URL; the harness also compares MatchAll with a linear scan over every network rule of the storage (the property own oracle); non-trivial = some request of the case matched a rule',
+        'rule': 'storages of 1-3 String lists (ids incl. 0, negative and extreme int32) with 0-60 rules each: rules whose shortcut contains one of 24 pairs of djb2-colliding 5-byte windows (birthday search), shortcuts of length exactly 5 / below 5 / at the any-URL thresholds, $domain rules (incl. wildcard TLD and negated), rules without shortcut and domain (sequential table), families of rules sharing shortcut windows (histogram), exceptions, focused and grammar rules; 40 (120) requests per engine coupled to the rules, with colliding windows and windows at the very end of the URL; the harness also compares MatchAll with a linear scan over every network rule of the storage (the property own oracle); non-trivial = some request of the case matched a rule ; every engine case also runs on a file-backed engine over the same lists; one engine in twelve has rule lines of exactly 4096 / 8192 bytes (and one byte less / more) followed by other lines',
         'correspondence': 'per request, the sorted set of rule texts of NetworkEngine.MatchAll vs match_all of the model engine built by the model from the same storage with its own djb2 (also compared directly on sample strings)',
         'assumptions': ['ASCII rule lists; a request is skipped by the model if some rule match is outside the modelled fragment (Go-side linear-scan oracle still applies)'],
     },
     'C02': {
         'incoq_k': 8,
         'harness': 'c02',
-        'rule': 'storages of 1-3 lists with 0-40 lines mixing hosts lines (IPv4/IPv6/mapped, 1-8 names), bare domains, 12 pairs of djb2-colliding host names (birthday search) in hosts lines and in ||name^ rules, adblock rules with browser-only modifiers (content types, $domain, third-party, match-case, popup: ignored by the DNS engine), host-level rules with important / badfilter / dnstype / client / ctag / dnsrewrite / denyallow, exceptions, and lookup-table rules of C01; 40 (120) DNS requests per engine (listed, colliding, sub-, near-miss and empty host names; client name, IP, tag, record type); the harness also computes the reference resolution by scanning every rule; non-trivial = some request of the case was matched',
+        'rule': 'storages of 1-3 lists with 0-40 lines mixing hosts lines (IPv4/IPv6/mapped, 1-8 names), bare domains, 12 pairs of djb2-colliding host names (birthday search) in hosts lines and in ||name^ rules, adblock rules with browser-only modifiers (content types, $domain, third-party, match-case, popup: ignored by the DNS engine), host-level rules with important / badfilter / dnstype / client / ctag / dnsrewrite / denyallow, exceptions, and lookup-table rules of C01; 40 (120) DNS requests per engine (listed, colliding, sub-, near-miss and empty host names; client name, IP, tag, record type); the harness also computes the reference resolution by scanning every rule; non-trivial = some request of the case was matched ; one engine in twenty has 258-318 per-client rules for one five-character name (one shortcut window) plus its hosts entry',
         'correspondence': 'per request: sorted texts of NetworkRules, class of NetworkRule (none/block/allow, important), sorted texts of HostRulesV4 and HostRulesV6, matched; implementation vs dns_match of the model engine built from the same storage',
         'assumptions': ['ASCII; sorted request tags; lower-case hostnames'],
     },
@@ -127,7 +127,7 @@ PROPS = {
         'incoq_k': 8,
         'harness': 'c13',
         'run_module': 'RunSession',
-        'rule': 'storages of 1-3 lists, String- and File-backed alternately (0-30 lines each: hosts lines, bare domains, host-level rules with important / badfilter / dnstype / client / ctag / dnsrewrite / denyallow, || rules reachable both by hostname and by URL requests, regex rules incl. an invalid one, lookup-table rules) shared by one NetworkEngine, one DNSEngine and one web Engine; histories of 30-60 (150-300 thorough) queries: URL requests (also https/ws/wss variants of hosts queried by name before), hostname requests through NetworkEngine.MatchAll, web requests with referrers through Engine.MatchRequest (verdict class, basic rule, cosmetic option), names in other letter cases and address literals between ordinary names, DNS requests through DNSEngine.MatchRequest with alternating client name / IP / tags / record type, one query in four repeating an earlier one (possibly through the other engine or with other client fields); after every third query the derived results (DNSRewrites, DNSRewritesAll, GetDNSBasicRule, NewMatchingResult.GetBasicResult, GetCosmeticOption) of older result objects are evaluated; the harness also asks every query on fresh engines and re-serialises every old result object at the end; plus straddling-block histories on 13 KB file-backed lists, Go-side web histories with colliding / case-variant referrers, and one 17 000-query history; non-trivial = some query of the history matched',
+        'rule': 'storages of 1-3 lists, String- and File-backed alternately (0-30 lines each: hosts lines, bare domains, host-level rules with important / badfilter / dnstype / client / ctag / dnsrewrite / denyallow, || rules reachable both by hostname and by URL requests, regex rules incl. an invalid one, lookup-table rules) shared by one NetworkEngine, one DNSEngine and one web Engine; histories of 30-60 (150-300 thorough) queries: URL requests (also https/ws/wss variants of hosts queried by name before), hostname requests through NetworkEngine.MatchAll, web requests with referrers through Engine.MatchRequest (verdict class, basic rule, cosmetic option), names in other letter cases and address literals between ordinary names, DNS requests through DNSEngine.MatchRequest with alternating client name / IP / tags / record type, one query in four repeating an earlier one (possibly through the other engine or with other client fields); after every third query the derived results (DNSRewrites, DNSRewritesAll, GetDNSBasicRule, NewMatchingResult.GetBasicResult, GetCosmeticOption) of older result objects are evaluated; the harness also asks every query on fresh engines and re-serialises every old result object at the end; plus straddling-block histories on 13 KB file-backed lists, Go-side web histories with colliding / case-variant referrers, and one 17 000-query history; non-trivial = some query of the history matched ; exact-gap histories (the same query again after exactly d-1 other queries, d around 2^8, 2^15, 2^16, 2^17, through the three engines, against a fresh engine); web histories with getters asked in both orders',
         'correspondence': 'per query the canonical answer (sorted rule texts; for DNS: network rules, basic-rule class, V4, V6, matched) of the implementation in history vs the STATEFUL model (cache, lazy compilation memo, request pool) run on the same history, which by C13_history_independent equals the pure answer; Go-side flags: answer differs from the fresh-engine answer, an old result object changed',
         'assumptions': ['slice aliasing between result objects is exercised on the implementation side only (re-serialisation of old results); the model treats results as values'],
     },
@@ -136,7 +136,7 @@ PROPS = {
         'incoq_k': 8,
         'harness': 'c19',
         'run_module': 'RunSession',
-        'rule': 'File-backed storages of 1-3 lists (0-25 lines, same line grammar as C13) with a NetworkEngine and a DNSEngine; base histories of 6-16 (6-40 thorough) queries; for EVERY fault point k in 0..n one case: queries 1..k, the fault (RuleStorage.Close, or every list file handle replaced by a closed descriptor), queries k+1..n, then queries 1..k again (rules materialised before the fault), occasionally a second fault; all queries under recover(); after the fault the harness checks on the implementation side that every returned rule matches its request and belongs to the fault-free answer (computed on a String-backed twin); non-trivial = some query after the fault still returned rules',
+        'rule': 'File-backed storages of 1-3 lists (0-25 lines, same line grammar as C13) with a NetworkEngine and a DNSEngine; base histories of 6-16 (6-40 thorough) queries; for EVERY fault point k in 0..n one case: queries 1..k, the fault (RuleStorage.Close, or every list file handle replaced by a closed descriptor), queries k+1..n, then queries 1..k again (rules materialised before the fault), occasionally a second fault; all queries under recover(); after the fault the harness checks on the implementation side that every returned rule matches its request and belongs to the fault-free answer (computed on a String-backed twin); non-trivial = some query after the fault still returned rules ; after Close the harness opens decoy files of the same layout (every rule in capitals) that receive the released descriptor numbers; one history per run materialises 66 000+ further rules between the queries the oracle asks about and the fault',
         'correspondence': 'per query the canonical answer of the implementation vs the stateful model run on the same history (cache filled in the order of the code, retrieval failing after the fault unless cached); Go-side flags: panic, returned rule that does not match, returned rule outside the fault-free answer',
         'exhaustive_part': 'fault point k = 0..n of every base history',
         'assumptions': ['faults are persistent (closed storage / closed descriptor), as in the property; the model does not express panics: they are observed under recover()'],
@@ -145,7 +145,7 @@ PROPS = {
         'traces': True,
         'harness': 'c14',
         'race': True,
-        'rule': 'configurations of a storage (1-3 lists, String-backed or File-backed alternately, same line grammar as C13), 120 (400 thorough) requests (URL, hostname and DNS requests, a quarter repeating earlier ones) and a goroutine count in {2,3,4,8,16,32}; three passes on fresh engines with a cold cache: sequential reference; single-goroutine probe pass (TryLock / TryRLock on the real mutex at every cache read, cache write, file read and compile point: with one goroutine a missing Lock() cannot be masked by another holder); concurrent pass under the race detector with the requests partitioned over the goroutines and yields / short sleeps injected at the cache-miss, file-read, compile and pool boundaries, every answer compared with the sequential one, pooled request objects tracked for double ownership; non-trivial = some request of the configuration matched a rule',
+        'rule': 'configurations of a storage (1-3 lists, String-backed or File-backed alternately, same line grammar as C13), 120 (400 thorough) requests (URL, hostname and DNS requests, a quarter repeating earlier ones) and a goroutine count in {2,3,4,8,16,32}; three passes on fresh engines with a cold cache: sequential reference; single-goroutine probe pass (TryLock / TryRLock on the real mutex at every cache read, cache write, file read and compile point: with one goroutine a missing Lock() cannot be masked by another holder); concurrent pass under the race detector with the requests partitioned over the goroutines and yields / short sleeps injected at the cache-miss, file-read, compile and pool boundaries, every answer compared with the sequential one, pooled request objects tracked for double ownership; non-trivial = some request of the configuration matched a rule ; 48 web requests from six pages under different document-level exceptions at the head of every history; pass 6: twelve freshly built engines per case whose cosmetic side (rules with 24-43 domains) is first used by up to eight goroutines released together',
         'correspondence': 'lock mode observed at each kind of shared access (r/w, or NONE when the probe finds the lock free), pool ownership and answer agreement, vs the modes the Coq protocol model requires (t_write of the region tasks T_lookup / T_insert / T_load / T_prepare the theorems are about); Go-side flags: data-race reports, concurrent answer differing from the sequential one, lock not held, pooled request shared, queries blocking forever',
         'assumptions': ['PARTIAL: the theorems are about the protocol model (locks as state, sequentially consistent memory, every interleaving of lock-delimited steps); that the code follows the protocol is checked by the probes; the Go memory model and scheduler are exercised by the race-detector run, which is search, not proof'],
     },
